@@ -618,6 +618,16 @@ def _is_not_a_solution_(sub_query: Optional[An], sources: Dict[int, HashedValue]
     return sub_query._is_false_
 
 
+def _takes_its_value_from_a_non_solution_(expression: SymbolicExpression, bindings: Dict[int, HashedValue]) -> bool:
+    """
+    Whether the expression is (an attribute, index or call of) a sub-query that the given bindings bind to a value that is
+    not one of its solutions - in a false row of a comparison that another side of a disjunction made true. The sub-query
+    has no such value: the expression has none either, there is nothing to select or to construct with.
+    """
+    sub_query = _sub_query_of_(expression)
+    return sub_query is not None and isinstance(bindings.get(sub_query._id_), NonSolution)
+
+
 def _mark_as_non_solution_(sub_query: An, values: Dict[int, HashedValue]) -> None:
     bound = values.get(sub_query._id_)
     if bound is not None and not isinstance(bound, NonSolution):
@@ -715,6 +725,8 @@ class QueryObjectDescriptor(CanBehaveLikeAVariable[T], ABC):
             yield bindings
             return
         var, remaining_vars = selected_vars[0], selected_vars[1:]
+        if _takes_its_value_from_a_non_solution_(var, bindings):
+            return
         for var_bindings in var._evaluate__(copy(bindings)):
             new_bindings = copy(var_bindings)
             new_bindings.update(bindings)
@@ -1070,6 +1082,8 @@ class Variable(CanBehaveLikeAVariable[T]):
             yield kwargs
             return
         (name, var), remaining_vars = child_vars[0], child_vars[1:]
+        if _takes_its_value_from_a_non_solution_(var, bindings):
+            return
         for var_bindings in var._evaluate__(copy(bindings)):
             new_bindings = copy(var_bindings)
             new_bindings.update(bindings)
